@@ -164,6 +164,7 @@ class CreateTable:
         self.fks = []  # (cols, table, refcols)
         self.checks = []
         self.if_not_exists = False
+        self.as_select = None
 
     def col(self, name):
         for c in self.columns:
@@ -358,6 +359,14 @@ class Parser:
             name = self.ident()
             ct = CreateTable(name)
             ct.if_not_exists = ine
+            if self.accept_kw("AS"):
+                # CREATE TABLE x AS SELECT ...: columns are the select list (no constraints)
+                ct.as_select = self.select()
+                for e, a in ct.as_select.columns:
+                    nm = a or (e[2] if e[0] == "col" else None)
+                    if nm:
+                        ct.columns.append(ColDef(nm))
+                return ct
             self.expect_op("(")
             while True:
                 if self.at_kw("PRIMARY"):
